@@ -1,5 +1,5 @@
 """C14 -- compilation results do not depend on history or on earlier failures (also the history half of C13).
-   (1) Lifecycle.tla model-checked exhaustively (all histories of depth <= 5 over 2 instances x 11 abstract behaviours);
+   (1) Lifecycle.tla model-checked exhaustively (all histories of depth <= 5 over 2 instances x 12 abstract behaviours);
    (2) TLC-simulated histories replayed on real Compiler instances, one process per history;
    (3) the recorded events validated by TLC against the specification (Trace_Lifecycle.tla)."""
 import json
@@ -29,8 +29,10 @@ CATALOGUE = {
                "{ if (RtV) { P2 = mem_load_u8(RtV + uiV); } i = 0; while ((i++) + clo32(RsV)) { } }",
                "{ if (RsV) { P2 = mem_load_u8(RsV + siV); } const uint32_t k; k = (clz32(RtV) + siV); }"],
     "f_type": ["{ const int32_t x = (NsN + siV); x = 1; }", "{ const uint32_t y = (NtN + uiV); y = 2; }"],
+    # raise at the first leaf, after its attribute flag was set and before anything is in the holder
+    "f_early": ["{ G5_NEW = RsV; }", "{ if (S2_NEW) { RdV = 1; } }"],
 }
-ORDER = ["plain", "cond", "newld", "stjmp", "wp0", "wp13", "wpd", "hyb", "f_parse", "f_late", "f_type"]
+ORDER = ["plain", "cond", "newld", "stjmp", "wp0", "wp13", "wpd", "hyb", "f_parse", "f_late", "f_type", "f_early"]
 SUBS = {"g1": ("uint32_t", ["uint32_t x"], "{ return x + 1; }"),
         "g2": ("int32_t", ["int32_t a", "int32_t b"], "{ int32_t t = a; if (t < b) { t = b; } return t; }")}
 
@@ -131,6 +133,17 @@ def run(ctx):
     for k in list(range(0, 14)) + (list(range(95, 104)) if ctx.tier == "thorough" else []):
         for probe_ti, entry in ((2, "stmt"), (3, "stmt"), (2, "insn")):
             hists.append([{"op": "new", "c": 1}] + [{"op": "stmt", "c": 1, "b": hyb, "ti": 0}] * k + [{"op": entry, "c": 1, "b": hyb, "ti": probe_ti}])
+    # a failure at every position: for every failing text and entry point, one history in which that failure precedes
+    # every succeeding kind (entry points alternating), on one instance
+    okkinds = [k for k in ORDER if not k.startswith("f_")]
+    for fk in [k for k in ORDER if k.startswith("f_")]:
+        for fti in range(len(CATALOGUE[fk])):
+            for fentry in ("stmt", "insn"):
+                h = [{"op": "new", "c": 1}]
+                for i, k in enumerate(okkinds):
+                    h.append({"op": fentry, "c": 1, "b": ORDER.index(fk) + 1, "ti": fti})
+                    h.append({"op": ("stmt", "insn")[(i + fti) % 2], "c": 1, "b": ORDER.index(k) + 1, "ti": 0})
+                hists.append(h)
     # fresh references: every catalogue text through both entry points, each in its own fresh process
     fresh_jobs = []
     for bid, texts in CATALOGUE.items():
@@ -248,8 +261,8 @@ def run(ctx):
         "spec_states_exhaustive": mc.states, "trace_states": tv.states,
         "traces_validated_against_impl": len(traces) - len(seen),
         "evaluations": nsteps, "distinct_nontrivial": len({json.dumps([(e["op"], e["c"], e.get("b")) for e in t["events"]]) for t in traces}),
-        "rule": "histories = TLC simulation of Lifecycle.tla (2 instances, 11 abstract behaviours incl. 3 failing kinds, both entry points, "
-                "add_sub_routine), depth %d; each abstract behaviour is mapped to one of several concrete texts; every history runs in its own "
+        "rule": "histories = TLC simulation of Lifecycle.tla (2 instances, 12 abstract behaviours incl. 4 failing kinds (parse error, late, type error, first leaf), both entry points, "
+                "add_sub_routine), depth %d, plus directed histories (temporary-counter boundaries; every failing text before every succeeding kind); each abstract behaviour is mapped to one of several concrete texts; every history runs in its own "
                 "process; distinct = different action sequences" % depth,
         "samples": [[(e["op"], e["c"], e.get("b"), e["ok"]) for e in traces[0]["events"]]],
         "history_steps": nsteps, "exhaustive": False,
